@@ -136,8 +136,7 @@ func TestC13(t *testing.T) {
 						okErr = true
 					}
 				}
-				grey := c.exact && w == 0 && err == nil // documented grey corner: the exact variant returns early on a zero weight
-				if !okErr && !grey {
+				if !okErr {
 					t.Fatalf("C13 %s: AddWithCount(%v,%v) returned %v, expected one of %v", c, v, w, err, wantErrs)
 				}
 				cl.label("refused-add")
